@@ -486,7 +486,10 @@ def _generic_replay(mod, path):
     d = json.load(open(path))
     print(json.dumps(d, indent=1)[:4000])
     if hasattr(mod, 'replay_input') and d.get('failing_input') is not None:
-        ok = mod.replay_input(d['failing_input'])
+        fi = d['failing_input']
+        if isinstance(fi, dict) and 'signature' in fi and isinstance(fi.get('input'), (dict, list)):
+            fi = fi['input']          # a bounded-failure record (signature, what, input) wraps the input
+        ok = mod.replay_input(fi)
         print('replay: %s' % ('REPRODUCED' if not ok else 'not reproduced'))
         return 1 if not ok else 0
     if hasattr(mod, 'replay_input') and d.get('replay', {}) and d['replay'].get('input') is not None:
